@@ -15,8 +15,8 @@ def configs(tier, oracles=('model',)):
                      'oracles': list(oracles), 'features': list(features)})
     if tier == 'quick':
         sel = [('<f8', [], 'int64', 'create'), ('>i4', [2], 'uint8', 'as2'), ('<f8', [2, 1], 'int32', 'gen'),
-               ('>i4', [], 'int32', 'meta'), ('<c8', [2], 'int64', 'create'), ('|u1', [2, 1], 'uint8', 'as2'),
-               ('<f8', [2], 'int16', 'asE'), ('>i4', [2, 3], 'int64', 'asE')]
+               ('>i4', [], 'int32', 'meta'), ('|u1', [2, 1], 'uint8', 'as2'),
+               ('<c8', [2], 'int16', 'asE')]
         for dt, atom, it, route in sel:
             add(dt, atom, it, route, 3)
         add('<i2', [], 'int8', 'create', 3, ['big'])      # index overflow of a small index type within reach
